@@ -1,5 +1,318 @@
-(* C07/Proofs.v -- lemmas about the proximal model at R. *)
-From Coq Require Import ZArith QArith Reals Lra Lia List Bool.
-From Verif Require Import Base.Num Base.Vec Base.VecR C07.Model.
+(* C07/Proofs.v -- the functional-tree theorem: for every well-formed tree of the model,
+   fprox returns THE proximal point of fval (all trees, all sizes, all admissible steps). *)
+From Coq Require Import ZArith QArith Reals Lra Lia List Bool Psatz.
+From Verif Require Import Base.Num Base.Vec Base.VecR C07.Model C07.Convex C07.Leaves C07.LeafThms C07.Rules.
 Import ListNotations.
 Local Open Scope R_scope.
+
+Notation fexprR := (@fexpr R).
+Notation sigR := (@sig R).
+Notation leafR := (@leaf R).
+
+(* ---- which leaves are covered by the tree theorem, and which steps they accept ---- *)
+Definition leaf_ok (k : leafR) (n : nat) : Prop :=
+  match k with
+  | FL1 | FL2Sq | FConst _ | FIndZero _ | FBallInf => True
+  | FBox lo hi => bound_ok n lo /\ bound_ok n hi
+  | FHuber gamma => 0 <= gamma
+  | _ => False
+  end.
+Definition leaf_vec_ok (k : leafR) : Prop :=
+  match k with FL1 | FL2Sq | FConst _ | FBox _ _ | FIndZero _ => True | _ => False end.
+Definition leaf_sig_ok (k : leafR) (n : nat) (s : sigR) : Prop :=
+  match s with
+  | SScal sg => 0 < sg
+  | SVec v => leaf_vec_ok k /\ length v = n /\ allpos v
+  | SPair _ _ => False
+  end.
+
+Fixpoint wf (e : fexprR) : Prop :=
+  match e with
+  | Leaf k w => allpos w /\ leaf_ok k (length w)
+  | LScal s e' => 0 < s /\ wf e'
+  | RScal s e' => s <> 0 /\ wf e'
+  | SSum _ e' => wf e'
+  | Transl t e' => length t = fdim e' /\ wf e'
+  | QPert a u _ e' => 0 <= a /\ match u with Some u => length u = fdim e' | None => True end /\ wf e'
+  | Sep e1 e2 => wf e1 /\ wf e2
+  end.
+
+Fixpoint sig_ok (e : fexprR) (s : sigR) {struct e} : Prop :=
+  match e with
+  | Leaf k w => leaf_sig_ok k (length w) s
+  | LScal c e' => sig_ok e' (sig_scale c s)
+  | RScal c e' => sig_ok e' (sig_scale (c * c) s)
+  | SSum _ e' | Transl _ e' => sig_ok e' s
+  | QPert _ _ _ _ => match s with SScal sg => 0 < sg | _ => False end
+  | Sep e1 e2 =>
+      match s with
+      | SScal sg => 0 < sg
+      | SVec v => length v = (fdim e1 + fdim e2)%nat /\
+                  sig_ok e1 (SVec (firstn (fdim e1) v)) /\ sig_ok e2 (SVec (skipn (fdim e1) v))
+      | SPair a b => sig_ok e1 a /\ sig_ok e2 b
+      end
+  end.
+
+(* ---- bookkeeping ---- *)
+Lemma map_repeat {A B} (f : A -> B) a n : map f (repeat a n) = repeat (f a) n.
+Proof. induction n; cbn; congruence. Qed.
+
+Lemma sig_flat_scale (c : R) : forall (e : fexprR) (s : sigR),
+  sig_flat e (sig_scale c s) = map (fun a => a * c) (sig_flat e s).
+Proof.
+  induction e; intros sg; cbn [sig_flat]; auto.
+  - destruct sg; cbn [sig_scale sigv map]; [rewrite map_repeat|..]; numR; reflexivity.
+  - destruct sg as [sg|v|a b]; cbn [sig_scale].
+    + change (SScal (sg * c)%num) with (sig_scale c (SScal sg)). rewrite IHe1, IHe2, map_app. reflexivity.
+    + numR. reflexivity.
+    + rewrite IHe1, IHe2, map_app. reflexivity.
+Qed.
+Lemma sig_flat_scal (e : fexprR) sg : sig_flat e (SScal sg) = repeat sg (fdim e).
+Proof.
+  induction e; cbn [sig_flat]; auto.
+  unfold fdim in *; cbn [fweights]. rewrite IHe1, IHe2, app_length, repeat_app. reflexivity.
+Qed.
+Lemma sig_flat_vec (e : fexprR) v : sig_flat e (SVec v) = v.
+Proof. induction e; cbn [sig_flat]; auto. Qed.
+
+Lemma metric_scale n : forall c (w sv : Rvec), c <> 0 -> length w = n -> length sv = n ->
+  metric w (map (fun a => a * c) sv) = map (fun a => a * / c) (metric w sv).
+Proof.
+  induction n as [|n IHn]; intros c [|a w] [|b sv] Hc Hw Hs; cbn [length] in *; try lia; [reflexivity|].
+  unfold metric in *; unfv. cbn [map vmap2]. f_equal; [|apply IHn; auto; lia].
+  numR. unfold Rdiv.
+  destruct (Req_dec b 0) as [->|Hb].
+  - rewrite Rmult_0_l, Rinv_0. ring.
+  - rewrite Rinv_mult. ring.
+Qed.
+
+Lemma allpos_map_scale c (v : Rvec) : 0 < c -> allpos v -> allpos (map (fun a => a * c) v).
+Proof. intros Hc H; induction H; cbn; constructor; auto. nra. Qed.
+Lemma allpos_repeat c n : 0 < c -> allpos (repeat c n).
+Proof. intros; induction n; cbn; constructor; auto. Qed.
+Lemma allpos_app (a b : Rvec) : allpos a -> allpos b -> allpos (a ++ b).
+Proof. intros Ha Hb; induction Ha; cbn; auto. constructor; auto. Qed.
+Lemma allpos_firstn k (v : Rvec) : allpos v -> allpos (firstn k v).
+Proof.
+  unfold allpos. revert k; induction v as [|a v IH]; intros [|k] H; cbn [firstn]; try constructor.
+  - inversion H; assumption.
+  - apply IH. inversion H; assumption.
+Qed.
+Lemma allpos_skipn k (v : Rvec) : allpos v -> allpos (skipn k v).
+Proof.
+  unfold allpos. revert k; induction v as [|a v IH]; intros [|k] H; cbn [skipn]; auto.
+  apply IH. inversion H; assumption.
+Qed.
+
+Lemma fweights_allpos (e : fexprR) : wf e -> allpos (fweights e).
+Proof.
+  induction e; cbn [wf fweights]; intros H; try tauto.
+  destruct H as [H1 H2]. apply allpos_app; auto.
+Qed.
+
+Lemma sig_ok_scal (e : fexprR) : wf e -> forall sg, 0 < sg -> sig_ok e (SScal sg).
+Proof.
+  induction e; cbn [wf]; intros W sg Hs; cbn [sig_ok sig_scale leaf_sig_ok]; auto.
+  - destruct W as [Hc W]. apply IHe; [assumption|]. numR. nra.
+  - destruct W as [Hn W]. apply IHe; [assumption|]. numR.
+    assert (0 < s * s) by (destruct (Rtotal_order s 0) as [?|[?|?]]; [nra|contradiction|nra]). nra.
+  - apply IHe; tauto.
+Qed.
+
+(* steps accepted by a tree denote a positive per-entry step vector of the right length *)
+Lemma sig_flat_ok (e : fexprR) : wf e -> forall s, sig_ok e s ->
+  length (sig_flat e s) = fdim e /\ allpos (sig_flat e s).
+Proof.
+  induction e; cbn [wf]; intros W sg Hs; cbn [sig_ok sig_flat] in *.
+  - (* leaf *) unfold fdim; cbn [fweights]. destruct sg as [c|v|a b]; cbn [leaf_sig_ok sigv] in *.
+    + split; [apply repeat_length | apply allpos_repeat; assumption].
+    + tauto.
+    + contradiction.
+  - destruct W as [Hc W]. specialize (IHe W _ Hs). rewrite sig_flat_scale in IHe. destruct IHe as [L P].
+    rewrite map_length in L. split; [exact L|].
+    assert (E : sig_flat e sg = map (fun a => a * / s) (map (fun a => a * s) (sig_flat e sg))).
+    { rewrite map_map. rewrite <- (map_id (sig_flat e sg)) at 1. apply map_ext. intros a. field. lra. }
+    rewrite E. apply allpos_map_scale; [apply Rinv_0_lt_compat; assumption | exact P].
+  - destruct W as [Hc W]. specialize (IHe W _ Hs). rewrite sig_flat_scale in IHe. destruct IHe as [L P].
+    rewrite map_length in L.
+    assert (Hcc : 0 < s * s) by (destruct (Rtotal_order s 0) as [?|[?|?]]; [nra|contradiction|nra]).
+    assert (E : sig_flat e sg = map (fun a => a * / (s * s)) (map (fun a => a * (s * s)) (sig_flat e sg))).
+    { rewrite map_map. rewrite <- (map_id (sig_flat e sg)) at 1. apply map_ext. intros a. field. lra. }
+    split; [exact L|]. rewrite E. apply allpos_map_scale; [apply Rinv_0_lt_compat; assumption | exact P].
+  - apply IHe; assumption.
+  - apply IHe; tauto.
+  - destruct sg as [c0|v|a0 b]; try contradiction. rewrite sig_flat_scal.
+    split; [apply repeat_length | apply allpos_repeat; assumption].
+  - destruct W as [W1 W2]. unfold fdim in *; cbn [fweights]. rewrite app_length.
+    destruct sg as [c0|v|a0 b].
+    + rewrite !sig_flat_scal, <- repeat_app. unfold fdim.
+      split; [apply repeat_length | apply allpos_repeat; assumption].
+    + destruct Hs as (L & H1 & H2). destruct (IHe1 W1 _ H1) as [_ P1]. destruct (IHe2 W2 _ H2) as [_ P2].
+      rewrite sig_flat_vec in P1, P2. split; [exact L|].
+      rewrite <- (firstn_skipn (length (fweights e1)) v). apply allpos_app; assumption.
+    + destruct Hs as (H1 & H2). destruct (IHe1 W1 _ H1) as [L1 P1]. destruct (IHe2 W2 _ H2) as [L2 P2].
+      split; [rewrite app_length; lia | apply allpos_app; assumption].
+Qed.
+
+(* ---- leaves ---- *)
+Lemma sigv_ok k n s : leaf_sig_ok k n s -> length (sigv n s) = n /\ allpos (sigv n s).
+Proof.
+  destruct s as [sg|v|a b]; cbn [leaf_sig_ok sigv]; intros H.
+  - split; [apply repeat_length | apply allpos_repeat; assumption].
+  - tauto.
+  - contradiction.
+Qed.
+
+Lemma leaf_prox_optimal (k : leafR) (w : Rvec) (s : sigR) (x : Rvec) :
+  allpos w -> leaf_ok k (length w) -> leaf_sig_ok k (length w) s -> length x = length w ->
+  exists p, leaf_prox k w s x = Ok p /\
+            is_proxm (length w) (leaf_val k w) (metric w (sigv (length w) s)) x p.
+Proof.
+  intros Pw Hk Hs Hx. destruct (sigv_ok _ _ _ Hs) as [Ls Ps].
+  set (n := length w) in *.
+  assert (Pm : allpos (metric w (sigv n s))) by (apply (metric_allpos n); auto).
+  destruct k; cbn [leaf_ok] in Hk; try contradiction; unfold leaf_prox; rewrite ?Hx.
+  - (* L1 *) destruct s as [sg|v|a b]; [| |contradiction]; eexists; (split; [reflexivity|]);
+      apply l1_leaf_prox; auto.
+  - (* L2^2 *) destruct s as [sg|v|a b]; [| |contradiction]; eexists; (split; [reflexivity|]);
+      apply l2sq_leaf_prox; auto.
+  - (* constant *) eexists; split; [reflexivity|].
+    apply (is_proxm_ext n (fun _ => Some c)); [reflexivity|]. apply const_leaf_prox; auto with vlen.
+  - (* box *) destruct Hk as [Hlo Hhi]. eexists; split; [reflexivity|]. apply box_leaf_prox; auto.
+  - (* {0} *) eexists; split; [reflexivity|]. apply indzero_leaf_prox; auto.
+  - (* unit ball of the max norm *)
+    destruct s as [sg|v|a b]; cbn [leaf_sig_ok leaf_vec_ok] in Hs; [|tauto|contradiction].
+    cbn [needs_scalar]. eexists; split; [reflexivity|]. apply ballinf_leaf_prox; auto.
+  - (* Huber *)
+    destruct s as [sg|v|a b]; cbn [leaf_sig_ok leaf_vec_ok] in Hs; [|tauto|contradiction].
+    cbn [needs_scalar]. eexists; split; [reflexivity|]. apply huber_leaf_prox; auto.
+Qed.
+
+(* ---- the constant of proximal_quadratic_perturbation ---- *)
+Lemma quad_const_facts sg a : 0 < sg -> 0 <= a ->
+  let c := 1 / sqrt (sg * 2 * a + 1) in
+  c <> 0 /\ c * c = / (2 * sg * a + 1) /\ c * (1 / c) = 1.
+Proof.
+  intros Hs Ha c.
+  assert (HD : 0 < sg * 2 * a + 1) by nra.
+  assert (Hq : 0 < sqrt (sg * 2 * a + 1)) by (apply sqrt_lt_R0; assumption).
+  assert (Hqq : sqrt (sg * 2 * a + 1) * sqrt (sg * 2 * a + 1) = sg * 2 * a + 1) by (apply sqrt_sqrt; lra).
+  assert (Hc : c <> 0).
+  { unfold c. intro E. apply (Rmult_eq_compat_r (sqrt (sg * 2 * a + 1))) in E.
+    unfold Rdiv in E. rewrite Rmult_assoc, Rinv_l in E by lra. lra. }
+  split; [assumption|]. split.
+  - unfold c. replace (2 * sg * a + 1) with (sg * 2 * a + 1) by ring. rewrite <- Hqq at 3.
+    field. lra.
+  - field. assumption.
+Qed.
+
+Lemma wdot_zero_r n : forall w z : Rvec, length w = n -> length z = n -> wdot w z (map (fun _ => 0) w) = 0.
+Proof.
+  induction n as [|n IHn]; intros [|a w] [|b z] Hw Hz; cbn [length] in *; try lia; [reflexivity|].
+  cbn [map]. rewrite wdot_cons', IHn by lia. ring.
+Qed.
+
+Lemma metric_app n1 (w1 w2 s1 s2 : Rvec) : length w1 = n1 -> length s1 = n1 ->
+  metric (w1 ++ w2) (s1 ++ s2) = metric w1 s1 ++ metric w2 s2.
+Proof. intros; unfold metric; apply (vdiv_app n1); assumption. Qed.
+
+(* ==== every well-formed functional tree: fprox returns the proximal point of fval ==== *)
+Theorem fprox_optimal_all (e : fexprR) : wf e -> forall (s : sigR) (x : Rvec),
+  sig_ok e s -> length x = fdim e ->
+  exists p, fprox e s x = Ok p /\
+            is_proxm (fdim e) (fval e) (metric (fweights e) (sig_flat e s)) x p.
+Proof.
+  induction e; cbn [wf]; intros W sg x Hs Hx.
+  - (* leaf *) destruct W as [Pw Hk]. cbn [sig_ok] in Hs. cbn [fprox fval sig_flat fweights]. unfold fdim in *; cbn [fweights] in *.
+    apply leaf_prox_optimal; assumption.
+  - (* s * f *)
+    destruct (sig_flat_ok (LScal s e) W sg Hs) as [Lf Pf]. cbn [sig_flat] in Lf, Pf.
+    destruct W as [Hc W]. cbn [sig_ok] in Hs.
+    destruct (IHe W (sig_scale s sg) x Hs Hx) as (p & Ep & Pp). exists p. split.
+    + cbn [fprox]. numR. destruct (Rltb_spec s 0); [lra|]. destruct (Reqb_spec s 0); [lra|]. exact Ep.
+    + cbn [fval fweights sig_flat]. change (fdim (LScal s e)) with (fdim e) in *.
+      rewrite sig_flat_scale, (metric_scale (fdim e)) in Pp by (auto; lra).
+      apply rule_left_scaling; auto. apply (metric_len (fdim e)); auto.
+  - (* f (s .) *)
+    destruct (sig_flat_ok (RScal s e) W sg Hs) as [Lf Pf]. cbn [sig_flat] in Lf, Pf.
+    destruct W as [Hc W]. cbn [sig_ok] in Hs. change (fdim (RScal s e)) with (fdim e) in *.
+    assert (Hcc : s * s <> 0) by (intro E; apply Hc; nra).
+    destruct (IHe W (sig_scale (s * s) sg) (vscal s x) Hs ltac:(auto with vlen)) as (p & Ep & Pp).
+    exists (vscal (1 / s) p). split.
+    + cbn [fprox]. unfold prox_arg_scaling. numR. destruct (Reqb_spec s 0); [contradiction|].
+      rewrite Ep. reflexivity.
+    + cbn [fval fweights sig_flat].
+      rewrite sig_flat_scale, (metric_scale (fdim e)) in Pp by auto.
+      apply rule_arg_scaling; auto. apply (metric_len (fdim e)); auto.
+  - (* f + c *)
+    cbn [sig_ok] in Hs. destruct (IHe W sg x Hs Hx) as (p & Ep & Pp). exists p. split; [exact Ep|].
+    cbn [fval fweights sig_flat]. change (fdim (SSum c e)) with (fdim e). apply is_proxm_add_const. exact Pp.
+  - (* translation *)
+    destruct (sig_flat_ok (Transl t e) W sg Hs) as [Lf Pf]. cbn [sig_flat] in Lf, Pf.
+    destruct W as [Ht W]. cbn [sig_ok] in Hs. change (fdim (Transl t e)) with (fdim e) in *.
+    destruct (IHe W sg (vsub x t) Hs ltac:(auto with vlen)) as (p & Ep & Pp).
+    exists (vadd t p). split.
+    + cbn [fprox]. unfold prox_translation. rewrite Ep. reflexivity.
+    + cbn [fval fweights sig_flat]. apply rule_translation; auto. apply (metric_len (fdim e)); auto.
+  - (* quadratic perturbation *)
+    destruct W as (Ha & Hu & W). cbn [sig_ok] in Hs. destruct sg as [sg|v|a' b]; try contradiction.
+    change (fdim (QPert a u c e)) with (fdim e) in *.
+    set (u' := match u with Some u => u | None => map (fun _ => 0) (fweights e) end).
+    assert (Lu : length u' = fdim e) by (unfold u'; destruct u; [assumption|apply map_length]).
+    destruct (quad_const_facts sg a Hs Ha) as (Hc & Hcc & Hc1).
+    set (cc := 1 / sqrt (sg * 2 * a + 1)) in *.
+    assert (Hsc : 0 < sg * (cc * cc)).
+    { rewrite Hcc. apply Rmult_lt_0_compat; [assumption|]. apply Rinv_0_lt_compat. nra. }
+    pose proof (sig_ok_scal e W _ Hsc) as Hs'.
+    set (y := vscal cc (vlin cc x (- (sg * cc)) u')).
+    assert (Ly : length y = fdim e) by (unfold y; auto with vlen).
+    destruct (IHe W (SScal (sg * (cc * cc))) y Hs' Ly) as (p & Ep & Pp).
+    exists p. split.
+    + cbn [fprox]. numR. destruct (Rltb_spec a 0); [lra|].
+      unfold prox_quad_pert. numS. destruct (Rltb_spec a 0); [lra|].
+      unfold prox_arg_scaling. numS. fold cc. destruct (Reqb_spec cc 0); [contradiction|].
+      cbn [sig_scale]. numR. fold u'. fold y. rewrite Ep. cbn [rmap].
+      rewrite (vscal_vscal (fdim e)), Hc1, (vscal_one (fdim e)) by (destruct Pp; assumption). reflexivity.
+    + cbn [fval fweights sig_flat]. rewrite sig_flat_scal in *.
+      assert (Ey : y = vscal (/ (2 * sg * a + 1)) (vsub x (vscal sg u'))).
+      { unfold y. rewrite (vlin_as_sub (fdim e)) by assumption.
+        rewrite (vscal_vscal (fdim e)) by auto with vlen. rewrite Hcc. reflexivity. }
+      rewrite Ey, Hcc in Pp.
+      pose proof (rule_quadratic_perturbation (fdim e) (fval e) (fweights e) sg a u' c x p
+                    Hs Ha eq_refl Lu Hx Pp) as Q.
+      revert Q. apply is_proxm_ext. intros z Hz. numR. unfold winner. f_equal. f_equal.
+      unfold u'. destruct u as [u|]; [reflexivity|]. rewrite (wdot_zero_r (fdim e)) by auto. reflexivity.
+  - (* separable sum *)
+    destruct (sig_flat_ok (Sep e1 e2) W sg Hs) as [Lf Pf].
+    destruct W as [W1 W2]. cbn [sig_ok] in Hs.
+    assert (Hd : fdim (Sep e1 e2) = (fdim e1 + fdim e2)%nat) by (unfold fdim; cbn [fweights]; apply app_length).
+    rewrite Hd in *.
+    set (x1 := firstn (fdim e1) x). set (x2 := skipn (fdim e1) x).
+    assert (L1 : length x1 = fdim e1) by (unfold x1; rewrite firstn_length; lia).
+    assert (L2 : length x2 = fdim e2) by (unfold x2; rewrite skipn_length; lia).
+    assert (Ex : x = x1 ++ x2) by (unfold x1, x2; symmetry; apply firstn_skipn).
+    assert (K : exists s1 s2, sig_ok e1 s1 /\ sig_ok e2 s2 /\
+              sig_flat (Sep e1 e2) sg = sig_flat e1 s1 ++ sig_flat e2 s2 /\
+              (let '(a, b) := match sg with
+                     | SScal _ => (sg, sg)
+                     | SVec v => (SVec (firstn (fdim e1) v), SVec (skipn (fdim e1) v))
+                     | SPair a b => (a, b) end in (a, b)) = (s1, s2)).
+    { destruct sg as [c|v|a b].
+      - exists (SScal c), (SScal c). repeat split; auto using sig_ok_scal.
+      - destruct Hs as (Lv & H1 & H2). exists (SVec (firstn (fdim e1) v)), (SVec (skipn (fdim e1) v)).
+        repeat split; auto. cbn [sig_flat]. rewrite !sig_flat_vec. symmetry. apply firstn_skipn.
+      - destruct Hs as (H1 & H2). exists a, b. repeat split; auto. }
+    destruct K as (s1 & s2 & H1 & H2 & Ef & Es).
+    destruct (IHe1 W1 s1 x1 H1 L1) as (p1 & Ep1 & Pp1).
+    destruct (IHe2 W2 s2 x2 H2 L2) as (p2 & Ep2 & Pp2).
+    destruct (sig_flat_ok e1 W1 s1 H1) as [Lf1 _]. destruct (sig_flat_ok e2 W2 s2 H2) as [Lf2 _].
+    exists (p1 ++ p2). split.
+    + cbn [fprox]. unfold prox_combine.
+      destruct (match sg with
+                | SScal _ => (sg, sg)
+                | SVec v => (SVec (firstn (fdim e1) v), SVec (skipn (fdim e1) v))
+                | SPair a b => (a, b) end) as [a b] eqn:E.
+      injection Es as -> ->. fold x1. fold x2. rewrite Ep1. cbn [rbind]. rewrite Ep2. reflexivity.
+    + cbn [fval fweights]. rewrite Ef, (metric_app (fdim e1)) by auto. rewrite Ex at 1.
+      apply rule_separable; auto; apply (metric_len _); auto.
+Qed.
